@@ -35,15 +35,21 @@ def ob_step(a: int, b: int, c: int, hold: int) -> bool:
             assume(hold > 0)
         if ev == 'holdt':
             assume(hold > 0)
+    elif P.get('stale'):
+        # Idle / Connect after an earlier session: what that session negotiated (0 or 3..configured) is still around
+        assume(hold == 0 or 3 <= hold <= S.DEFAULT_CFG['hold_time'])
     else:
         hold = None
-    w = S.in_state(state, cfgd, hold=hold, closing=P.get('closing', False), old_closed=P.get('old_closed', False))
+    w = S.in_state(state, cfgd, hold=hold, closing=P.get('closing', False), old_closed=P.get('old_closed', False),
+                   stale_hold=hold if P.get('stale') else None)
     mark = w.mark()
     SC.inject(w, ev, a, b, c)
     obs = SC.observe(w, mark)
     oev, sub = SC.oracle_event(ev)
     cover('stepped')
     ctx = {'sub': sub, 'hold': hold}
+    las = w.cfg['local_as']
+    ctx['open'] = (4, las if las < 65536 else 23456, w.cfg['hold_time'])
     if ev == 'badlen' and cfgd.get('badlen', (4, 20))[0] == 4:
         ctx['reports_ok'] = ('keepalive_received',)
     return REF.check(state, oev, ctx, obs)
@@ -109,7 +115,8 @@ def obligations(tier, seed):
             if quick and state not in (S.IDLE, S.CONNECT) and ev not in ('manual_stop', 'holdt', 'notif', 'peer_close', 'crt'):
                 continue
             out.append(ob('C01/step-after-earlier-connection/%s/%s' % (S.STATE_NAMES[state], ev), 'ob_step',
-                          {'state': state, 'ev': ev, 'old_closed': True}, covers=['stepped'], cap=120))
+                          {'state': state, 'ev': ev, 'old_closed': True, 'stale': state in (S.IDLE, S.CONNECT)},
+                          covers=['stepped'], cap=120))
     # sequences from boot: split by first event so the 16 workers share the tree
     core = ['tcp_ok', 'tcp_fail', 'open_ok', 'ka', 'upd', 'notif', 'hdr_type', 'peer_close', 'timer', 'close_done',
             'manual_stop', 'manual_start']
